@@ -393,7 +393,12 @@ func runC08(c *core.Ctx, o Options) {
 	c.Check(arg == "(1000000000 * time.Duration(s.LogonSettings.HeartBtInt))", "W3", "start", "heartbeat period is time.Second × negotiated HeartBtInt", w.timers[cell].Pos(), arg, "the heartbeat timer's period is "+arg)
 	checkTimerType(c, "W4")
 	// the timer is closed when the goroutine ends (no leak of the polling ticker's goroutine) — informational in C13
-	c.RuleMin = map[string]int{"W1": 2, "W2": 2, "W3": 1, "W4": 5}
+	// W1 premises in the handler pool: a refused message does not reach the refreshing handler (the outgoing chain stops at the
+	// first refusal), and a registered handler stays registered (the session's refresh handler shares the application's pool)
+	checkPoolRange(c, "W1", "Outgoing")
+	checkPoolGrowOnly(c, "W1")
+	w.checkTimerClosers("W2")
+	c.RuleMin = map[string]int{"W1": 8, "W2": 4, "W3": 1, "W4": 5}
 	c.MinObl = 10
 }
 
@@ -445,6 +450,16 @@ func runC09(c *core.Ctx, o Options) {
 		c.Check(retTrue, "X1", w.inAll.Name(), "the handler lets dispatch continue", w.inAll.Pos(), "returns true", "the handler can return false and stop the dispatch of the message")
 		s := w.s
 		s.checkRestore("X1", w.inAll)
+		// the other all-types incoming handlers the library registers run in the same chain (Range stops at the first false):
+		// they may stop it only when the store failed, otherwise the message would never reach the refreshing handler
+		for _, r := range s.regs {
+			if !r.In || r.Key != "ALL" || r.Fn == nil || r.Fn == w.inAll {
+				continue
+			}
+			why := stopsChainWithoutStoreFailure(r.Fn)
+			c.Check(why == "", "X1", r.Fn.Name(), "an earlier all-types incoming handler stops the dispatch only on a store failure", r.Fn.Pos(), "returns true, or (store error) == nil",
+				"this all-types incoming handler can return false — "+why+" — and IncomingHandlerPool.Range then skips the handler that refreshes the probe timer and cancels the pending disconnect: that inbound message does not count as a sign of life")
+		}
 	}
 	// X2: period = time.Second × (H + T) with T = max(1, H/20), H the negotiated HeartBtInt (integer division)
 	{
@@ -591,7 +606,12 @@ func runC09(c *core.Ctx, o Options) {
 	}
 	checkCloseChain(c, "X4")
 	checkTimerType(c, "W4")
-	c.RuleMin = map[string]int{"M1": 3, "W4": 5, "X1": 3, "X2": 1, "X3": 2, "X4": 6}
+	// X1 premises in the handler pool: the incoming chain walks all handlers of a type in order while they return true, and a
+	// registered handler stays registered
+	checkPoolRange(c, "X1", "Incoming")
+	checkPoolGrowOnly(c, "X1")
+	w.checkTimerClosers("X3")
+	c.RuleMin = map[string]int{"M1": 3, "W4": 5, "X1": 9, "X2": 1, "X3": 4, "X4": 6}
 	c.MinObl = 14
 }
 
@@ -759,3 +779,98 @@ func reachesConnClose(d *ssa.Defer) bool {
 }
 
 var _ = token.NoPos
+
+// stopsChainWithoutStoreFailure inspects every returning path of an incoming handler: the result is the constant true, or false /
+// `err == nil` where err is the error of a call on the counter or message store (a failing store is an environment fault), or
+// `err == nil` with err already known to be nil on the path. It returns a description of the first other way to return false.
+func stopsChainWithoutStoreFailure(fn *ssa.Function) string {
+	isStoreErr := func(v ssa.Value) bool {
+		v = an.Unspill(v)
+		var call *ssa.Call
+		switch x := v.(type) {
+		case *ssa.Call:
+			call = x
+		case *ssa.Extract:
+			call, _ = x.Tuple.(*ssa.Call)
+		}
+		if call == nil || !call.Call.IsInvoke() {
+			return false
+		}
+		t := call.Call.Value.Type()
+		return an.TypeIs(t, "session", "CounterStorage") || an.TypeIs(t, "session", "MessageStorage")
+	}
+	paths, _ := an.EnumPaths(fn, 1024)
+	for _, p := range paths {
+		if p.Return == nil || len(p.ResVals) != 1 {
+			continue
+		}
+		res := an.Unspill(an.ResolveOnPath(p.ResVals[0], p))
+		if b, isC := an.ConstBool(res); isC {
+			if b {
+				continue
+			}
+			// constant false: some test on the path must be the failure of a store call
+			ok := false
+			for _, a := range p.Atoms {
+				if bo, isB := a.Val.(*ssa.BinOp); isB && a.Rel == "!=" && a.R == "nil" && (isStoreErr(an.ResolveOnPath(bo.X, p)) || isStoreErr(an.ResolveOnPath(bo.Y, p))) {
+					ok = true
+				}
+			}
+			if !ok {
+				return "returns false under [" + p.CondString() + "]"
+			}
+			continue
+		}
+		bo, isB := res.(*ssa.BinOp)
+		if !isB || bo.Op != token.EQL {
+			return "returns " + an.Render(res)
+		}
+		x := an.ResolveOnPath(bo.X, p)
+		if k, isK := bo.X.(*ssa.Const); isK && k.Value == nil {
+			x = an.ResolveOnPath(bo.Y, p)
+		}
+		if isStoreErr(x) {
+			continue
+		}
+		// already known nil on this path?
+		known := false
+		for _, a := range p.Atoms {
+			if a.Rel == "==" && a.R == "nil" && a.L == an.Render(x) {
+				known = true
+			}
+		}
+		if !known {
+			return "returns " + an.RenderOnPath(res, p) + ", which is not the outcome of a store call"
+		}
+	}
+	return ""
+}
+
+// checkTimerClosers: utils.Timer.TakeTimeout returns when the timer is closed exactly as it does on expiry, and the waiting
+// goroutines treat every return as an expiry unless the session context is done. So within package session a timer may be closed
+// only by the goroutine that waits on it, in a defer (when that goroutine ends); a Close from anywhere else makes the waiter send a
+// TestRequest / Heartbeat, or raise the disconnect event, although no period has elapsed.
+func (w *wiring) checkTimerClosers(rule string) {
+	c := w.s.c
+	n := 0
+	for _, fn := range w.s.allFuncs() {
+		for _, u := range timerUses(fn) {
+			if u.Method != "Close" {
+				continue
+			}
+			n++
+			_, isDefer := u.Call.(*ssa.Defer)
+			own := false
+			for _, r := range w.routines {
+				if r == fn {
+					if cell, k := waitedTimer(fn); k == 1 && cell != nil && cell == u.Cell {
+						own = true
+					}
+				}
+			}
+			c.Check(isDefer && own, rule, fn.Name(), "a timer is closed only by its own waiting goroutine, when that goroutine ends", u.Call.Pos(), "defer timer.Close() in the goroutine that calls timer.TakeTimeout()",
+				"Timer.Close is called outside a defer of the goroutine that waits on that timer: the waiter's TakeTimeout returns as if the period had expired, so a live peer is probed or disconnected (or a Heartbeat is sent early)")
+		}
+	}
+	c.Check(n >= 1, rule, "start", "timer Close sites found", w.start.Pos(), fmt.Sprint(n), "no Timer.Close call found in package session (the timers would leak; anchor moved)")
+}
